@@ -548,7 +548,8 @@ pub fn generate(seed: u64, run: u64, prop: &str) -> Generated {
         join_tags.push("orders-items");
     }
     if with_public && in_scope.iter().any(|t| t.name == "users" && t.col_index("city").is_some()) && rg.chance(0.6) {
-        from.push(FromItem { table: "regions".into(), alias: "r".into(), on: Some("u.city = r.city".into()), kind: "JOIN".into() });
+        // RIGHT JOIN: public rows without a protected partner are preserved (NULL unit)
+        from.push(FromItem { table: "regions".into(), alias: "r".into(), on: Some("u.city = r.city".into()), kind: if rg.chance(0.75) { "JOIN".into() } else { "RIGHT JOIN".into() } });
         in_scope.push(has("regions").unwrap());
         join_tags.push("users-regions");
     }
@@ -761,6 +762,24 @@ pub fn generate(seed: u64, run: u64, prop: &str) -> Generated {
                 k.ambiguous = true;
                 k.nullable = true;
             }
+        }
+    }
+    if from.iter().any(|f| f.kind == "RIGHT JOIN") {
+        for k in keys.iter_mut() {
+            if !k.expr.contains("r.") {
+                k.ambiguous = true;
+                k.nullable = true;
+            }
+        }
+    }
+    // nullability makes a key ambiguous only if it has a public value set to begin with: a
+    // nullable column without one is private in every reading (only a WHERE / ON condition on it
+    // could narrow it to something public)
+    for k in keys.iter_mut() {
+        if k.public_set.is_none() {
+            let narrowed = where_.iter().any(|w| w.contains(k.expr.as_str()))
+                || from.iter().any(|f| f.on.as_deref().map_or(false, |on| on.contains(k.expr.as_str())));
+            k.ambiguous = narrowed;
         }
     }
     let kshape: Vec<&str> = keys.iter().map(|k| if k.public_set.is_some() { "pub" } else { "priv" }).collect();
